@@ -21,7 +21,14 @@ import (
 //  (c) every boolean-typed property value set to each of 2..255,
 //  (d) every property identifier replaced by each of the 229 undefined ones.
 
+// c09Deliver: the damaged frame alone on its stream, or (one time in two)
+// followed by another frame: a frame that must be rejected must be rejected
+// whatever comes after it.
 func c09Deliver(c *sim.Ctx, frame []byte) Outcome {
+	if c.T.Bool(1, 2) {
+		next := [][]byte{{0xC0, 0x00}, {0x40, 0x02, 0x00, 0x01}, {0x30, 0x03, 0x00, 0x01, 0x61}, {0x00, 0x00}}[c.T.Int(4)]
+		return ReadOne(link.NewReader(c, append(append([]byte{}, frame...), next...), link.Mode{}))
+	}
 	return ReadOne(link.NewReader(c, frame, link.Mode{}))
 }
 
